@@ -387,7 +387,11 @@ package workflow
 //@   on aftercall .ProcessTemplates : failed = failed || result != nil
 //@   on aftercall .IsEnabled : cur = recv ; curEn = result ; nEn = nEn + (if result then 1 else 0)
 //@   on call builtin.append : assert arg1[0] == cur && curEn && len(arg0) == nApp ; nApp = nApp + 1
-//@   on store workflow.aggregator.Roles : assert nApp == nEn && len(value) == nEn
+//@   on store workflow.aggregator.Roles : assert nApp == nEn && len(value) == nEn ; pruned = true
+// (disabled roles are pruned whatever the template's own `enabled` says: a generated aggregator that is left empty
+// disables itself only while its children are processed)
+//@   ghostvar pruned bool = false
+//@   ensures i != nil && err == nil ==> pruned
 //@   loop 2 invariant !failed && !expErr
 //@   loop 3 invariant nApp == nEn && len(enabledRoles) == nApp && nEn >= 0 && fresh(enabledRoles)
 //@   ensures expErr || failed ==> err != nil
